@@ -33,7 +33,7 @@ REQUIRED = ['C15.Inv_init', 'C15.Inv_step', 'C15.Inv_run', 'C15.metric_value', '
             'C15.container_cv_is_cycle_vector', 'C15.init_is_good_is_quality_flag',
             'C15.cache_relevant_short_vals', 'C15.cache_relevant_short_vals_augmented', 'C15.cache_irrelevant_run',
             'C15.chain_position_spec', 'C15.position_in_chain_spec', 'C15.metric_frame', 'C15.metric_persists',
-            'C15.metric_value_persists', 'C15.add_metric_guard', 'C15.add_from_int_spec', 'C15.add_from_int_missing', 'C15.toIntVals_no_nan', 'C15.chain_metric_value']
+            'C15.metric_value_persists', 'C15.add_metric_guard', 'C15.add_from_int_spec', 'C15.add_from_int_missing', 'C15.add_from_int_on_fresh', 'C15.toIntVals_no_nan', 'C15.chain_metric_value']
 TRUSTED = ["Python's float(text) is an oracle: the harness sends float(cond[i:]) for every suffix of every condition, the model chooses the suffix",
            'pandas builds the table (DataFrame.from_dict / drop / reset_index): only row count, column names and cell values are compared',
            'the float constants 1.5*pi (trough threshold), 2*pi and 2*pi - phase_edge are computed by the harness with the documented expressions and handed to the model exactly',
